@@ -15,6 +15,9 @@ import ForML.Lemmas.C20Conf
 import ForML.Lemmas.C20Bank
 import ForML.Lemmas.C20Comm
 import ForML.Lemmas.C20Mono
+import ForML.Lemmas.C20Abc
+import ForML.Lemmas.C20Hist
+import ForML.Lemmas.C20Section
 
 namespace ForML.Conf
 
@@ -502,3 +505,393 @@ example :
         | _ => false) = true := by decide
 
 end ForML.Bank
+
+namespace ForML.Bank
+
+/-! ## what makes a provider abstract (`forml.provider.isabstract`, class by class) -/
+
+/-- Way 1, an abstract method / property of its own: the class is abstract. -/
+theorem C20_isabstract_own_method (tab : Tab) (s : ClsStmt) (habc : stmtAbc tab s = true) (e : Nat × Attr)
+    (he : e ∈ s.ns) (hab : e.2 = .func true) : isabstract (tab ++ [mkCls tab s]) tab.length = true := by
+  have : inspectAbstract (tab ++ [mkCls tab s]) tab.length = true :=
+    (inspectAbstract_new_iff tab s).2 ⟨habc, Or.inl ⟨e, he, by rw [hab]; rfl⟩⟩
+  simp [isabstract, this]
+
+/-- Way 2, an abstract method inherited from a direct base (its own or one it inherited in turn — the base's
+`__abstractmethods__` accumulates them) that the class does not resolve to an implementation: abstract. -/
+theorem C20_isabstract_inherited_method (tab : Tab) (s : ClsStmt) (habc : stmtAbc tab s = true) (b : Nat) (hb : b ∈ s.bases)
+    (cb : Cls) (hcb : tab[b]? = some cb) (n : Nat) (hn : n ∈ cb.abstracts)
+    (hres : isAbsAttr (getattrNs tab s.ns s.mro n) = true) : isabstract (tab ++ [mkCls tab s]) tab.length = true := by
+  have : inspectAbstract (tab ++ [mkCls tab s]) tab.length = true :=
+    (inspectAbstract_new_iff tab s).2 ⟨habc, Or.inr ⟨b, hb, cb, hcb, n, hn, hres⟩⟩
+  simp [isabstract, this]
+
+/-- …and those are the only ways for `inspect.isabstract`: a class none of whose own attributes is abstract and which
+resolves every abstract name of its direct bases to something concrete (overridden here or by a class earlier in the
+MRO) is not abstract in the standard library's sense. -/
+theorem C20_isabstract_implemented (tab : Tab) (s : ClsStmt) (hown : ∀ e ∈ s.ns, isAbsAttr (some e.2) = false)
+    (hinh : ∀ b ∈ s.bases, ∀ cb, tab[b]? = some cb → ∀ n ∈ cb.abstracts, isAbsAttr (getattrNs tab s.ns s.mro n) = false) :
+    inspectAbstract (tab ++ [mkCls tab s]) tab.length = false := by
+  cases h : inspectAbstract (tab ++ [mkCls tab s]) tab.length with
+  | false => rfl
+  | true =>
+    obtain ⟨_, h1 | h1⟩ := (inspectAbstract_new_iff tab s).1 h
+    · obtain ⟨e, he, hab⟩ := h1
+      rw [hown e he] at hab; cases hab
+    · obtain ⟨b, hb, cb, hcb, n, hn, hab⟩ := h1
+      rw [hinh b hb cb hcb n hn] at hab; cases hab
+
+/-- Way 3, an abstract class among the class' own attributes (an inner class statement, `Writer = some.Abstract`, or
+an override of the parent's inner class that is still abstract): abstract in forml's extended sense, although
+`inspect.isabstract` may say no. -/
+theorem C20_isabstract_own_inner (tab : Tab) (s : ClsStmt) (hwf : ∀ e ∈ s.ns, ∀ j, e.2 = .cls j → j < tab.length)
+    (e : Nat × Attr) (he : e ∈ s.ns) (j : Nat) (hj : e.2 = .cls j) (hab : inspectAbstract tab j = true) :
+    isabstract (tab ++ [mkCls tab s]) tab.length = true := by
+  have : innerAbstract (tab ++ [mkCls tab s]) tab.length = true := by
+    rw [innerAbstract_new tab s hwf, List.any_eq_true]
+    exact ⟨e, he, by rw [hj]; exact hab⟩
+  simp [isabstract, this]
+
+/-- Ways out: a class that implements its methods (`C20_isabstract_implemented`) and none of whose OWN attributes is an
+abstract class is concrete — whatever its bases hold: an abstract inner class that is merely inherited does not make
+it abstract (a `Sink` subclass may override `consumer` instead of `Writer`), and overriding the inner class by a
+concrete one removes the abstractness. -/
+theorem C20_isabstract_concrete (tab : Tab) (s : ClsStmt) (hwf : ∀ e ∈ s.ns, ∀ j, e.2 = .cls j → j < tab.length)
+    (hown : ∀ e ∈ s.ns, isAbsAttr (some e.2) = false)
+    (hinh : ∀ b ∈ s.bases, ∀ cb, tab[b]? = some cb → ∀ n ∈ cb.abstracts, isAbsAttr (getattrNs tab s.ns s.mro n) = false)
+    (hinner : ∀ e ∈ s.ns, attrAbstract tab e.2 = false) : isabstract (tab ++ [mkCls tab s]) tab.length = false := by
+  have h1 := C20_isabstract_implemented tab s hown hinh
+  have h2 : innerAbstract (tab ++ [mkCls tab s]) tab.length = false := by
+    rw [innerAbstract_new tab s hwf, List.any_eq_false]
+    intro e he
+    rw [hinner e he]
+    simp
+  simp [isabstract, h1, h2]
+
+/-- Class statements executed later never change what an existing class is. -/
+theorem C20_isabstract_stable (tab : Tab) (c : Cls) (j : Nat) (hj : j < tab.length) :
+    inspectAbstract (tab ++ [c]) j = inspectAbstract tab j := inspectAbstract_old tab c hj
+
+/-- non-vacuity, every shape at once.  Names: 1 = `run`, 10 = `work`, 20 = `Part`/`Writer`.
+  0 `Part` (abstract `work`) · 1 `Base` (abstract `run`) · 2 `Iface` (no abstract method, `Part = <0>`: abstract only
+  in the extended sense, like `forml.io.Sink`) · 3 `class A(Iface)` inheriting the abstract inner class: concrete ·
+  4 `PartImpl(Part)` implementing `work` · 5 `class B(Iface)` with `Part = <4>`: concrete · 6 `PartStill(Part)` ·
+  7 `class C(Iface)` with `Part = <6>`: abstract (override still abstract) · 8 `Impl(Base)` implementing `run` ·
+  9 `Helper(Base)`: abstract (inherited) · 10 `Re(Impl)` declaring `run` abstract again · 11 `Deep(Helper)`
+  implementing `run`: concrete · 12 a plain (non-ABC) class with an `abstractmethod`-decorated function: not abstract ·
+  13 `class D(Iface)` with `Part = <12>`: concrete -/
+def shapeStmts : List ClsStmt :=
+  [ ⟨true, [(10, .func true)], [], []⟩, ⟨true, [(1, .func true)], [], []⟩, ⟨true, [(20, .cls 0), (2, .func false)], [], []⟩,
+    ⟨false, [], [2], [2]⟩, ⟨false, [(10, .func false)], [0], [0]⟩, ⟨false, [(20, .cls 4)], [2], [2]⟩,
+    ⟨false, [(3, .other)], [0], [0]⟩, ⟨false, [(20, .cls 6)], [2], [2]⟩, ⟨false, [(1, .func false)], [1], [1]⟩,
+    ⟨false, [], [1], [1]⟩, ⟨false, [(1, .func true)], [8], [8, 1]⟩, ⟨false, [(1, .func false)], [9], [9, 1]⟩,
+    ⟨false, [(10, .func true)], [], []⟩, ⟨false, [(20, .cls 12)], [2], [2]⟩ ]
+
+example :
+    (List.range 14).map (inspectAbstract (build shapeStmts)) =
+      [true, true, false, false, false, false, true, false, false, true, true, false, false, false] ∧
+    (List.range 14).map (isabstract (build shapeStmts)) =
+      [true, true, true, false, false, false, true, true, false, true, true, false, false, false] := by decide
+
+/-- Abstract providers are never bound, with "abstract" computed from the class statements themselves: for every
+class table, every list of provider class statements in whatever registration order, a reference only ever maps to a
+class that is not abstract in forml's extended sense (no unimplemented abstract method, own or inherited, and no
+abstract class among its own attributes). -/
+theorem C20_abstract_never_bound (tab : Tab) (ps : List ProvStmt) (b : Bank)
+    (h : addAll Bank.empty (ps.map (·.toDef tab)) = .ok b) (r : Ref) (i : ClassId)
+    (hl : lookupRef r b.provider = some i) :
+    ∃ s ∈ ps, s.id = i ∧ r ∈ refs (s.toDef tab) ∧ isabstract tab s.k = false := by
+  obtain ⟨c, hc, ha, hr, hi⟩ := C20_abstract_never_registered _ b h r i hl
+  obtain ⟨s, hs, rfl⟩ := List.mem_map.1 hc
+  exact ⟨s, hs, hi, hr, ha⟩
+
+/-- …for every registration order: the same holds after registering any permutation of the statements, and (no
+colliding references) all orders bind every reference to the same concrete class. -/
+theorem C20_abstract_never_bound_any_order (tab : Tab) (ps ps' : List ProvStmt) (hp : ps.Perm ps')
+    (hcf : collisionFree (ps.map (·.toDef tab)) = true) :
+    ∃ b b', addAll Bank.empty (ps.map (·.toDef tab)) = .ok b ∧ addAll Bank.empty (ps'.map (·.toDef tab)) = .ok b' ∧
+      ∀ r, lookupRef r b.provider = lookupRef r b'.provider ∧
+        ∀ i, lookupRef r b'.provider = some i → ∃ s ∈ ps, s.id = i ∧ r ∈ refs (s.toDef tab) ∧ isabstract tab s.k = false := by
+  obtain ⟨b, b', hb, hb', hr⟩ := C20_bank_order _ _ (hp.map (·.toDef tab)) hcf
+  refine ⟨b, b', hb, hb', fun r => ⟨hr r, ?_⟩⟩
+  intro i hi
+  rw [← hr r] at hi
+  exact C20_abstract_never_bound tab ps b hb r i hi
+
+/-- …and at the level of the process: whatever was imported or looked up before, by alias or by qualified name, under
+any iteration order, `Service[reference]` never returns a class that is abstract in that sense. -/
+theorem C20_lookup_never_abstract (tab : Tab) (wt : WorldT) (st : St) (iface : ClassId) (r : Ref) (order : List Mod)
+    (hs : StSound (InWorld (wt.toWorld tab)) st) (i : ClassId) (h : (get (wt.toWorld tab) st iface r order).2 = .ok i) :
+    ∃ m mt, (m, mt) ∈ wt ∧ ∃ s ∈ mt.classes, s.id = i ∧ r ∈ refs (s.toDef tab) ∧ isabstract tab s.k = false := by
+  obtain ⟨c, ⟨m, d, hmd, hc⟩, ha, hr, hi⟩ := (get_sound _ st iface r order hs).2 i h
+  simp only [WorldT.toWorld, List.mem_map] at hmd
+  obtain ⟨⟨m', mt⟩, hmt, heq⟩ := hmd
+  cases heq
+  obtain ⟨s, hs', rfl⟩ := List.mem_map.1 hc
+  exact ⟨m', mt, hmt, s, hs', hi, hr, ha⟩
+
+/-- non-vacuity: the shapes above as providers of `Iface` (bank of class 2) in both orders — the concrete ones (3, 5,
+13) are bound by qualified name and alias, the abstract ones (2 itself, 7) are not -/
+example :
+    let tab := build shapeStmts
+    let ifc : ClassId := ⟨⟨0, none⟩, 2⟩
+    let ps : List ProvStmt :=
+      [ ⟨ifc, none, 2, [], [⟨1, none⟩]⟩, ⟨⟨⟨1, some 3⟩, 3⟩, some 3, 3, [ifc], []⟩, ⟨⟨⟨1, some 5⟩, 5⟩, some 5, 5, [ifc], []⟩,
+        ⟨⟨⟨1, some 7⟩, 7⟩, none, 7, [ifc], []⟩, ⟨⟨⟨1, some 13⟩, 13⟩, none, 13, [ifc], []⟩ ]
+    collisionFree (ps.map (·.toDef tab)) = true ∧
+      (match addAll Bank.empty (ps.map (·.toDef tab)) with
+       | .ok b => some ([Ref.qual ifc, .alias 3, .qual ⟨⟨1, some 5⟩, 5⟩, .qual ⟨⟨1, some 7⟩, 7⟩,
+           .qual ⟨⟨1, some 13⟩, 13⟩].map (fun r => lookupRef r b.provider))
+       | .error _ => none) =
+        some [none, some ⟨⟨1, some 3⟩, 3⟩, some ⟨⟨1, some 5⟩, 5⟩, none, some ⟨⟨1, some 13⟩, 13⟩] ∧
+      (match addAll Bank.empty (ps.reverse.map (·.toDef tab)) with
+       | .ok b => some ([Ref.qual ifc, .alias 3, .qual ⟨⟨1, some 7⟩, 7⟩].map (fun r => lookupRef r b.provider))
+       | .error _ => none) = some [none, some ⟨⟨1, some 3⟩, 3⟩, none] := by decide
+
+/-! ## lookup histories on lazily searched provider packages -/
+
+/-- Every history from a fresh process in a defect-free world — imports in any order (failing ones too), lookups of
+any interface, hits and misses — reaches a state in which the classes of every imported module are registered, every
+binding comes from an imported module and every registered search path exists. -/
+theorem C20_history_invariant (w : World) (hw : worldClean w = true) (hpo : pathsOk w = true) (ops : List HOp) :
+    Inv w (runHist w St.empty ops) := inv_runHist hw hpo ops _ (inv_empty w)
+
+/-- What a single lookup answers, in terms of the bank's lazy search state only (its bindings and its set of remaining
+search paths): a bound reference is answered from the table; an unbound one resolves exactly when the search list —
+the registered paths and the candidates the reference derives from them — covers a module defining it below the
+interface, and raises the missing-provider error otherwise.  Nothing else of the history matters. -/
+theorem C20_lookup_single_shot (w : World) (hw : worldClean w = true) (hpo : pathsOk w = true) (hpk : pkgsExist w = true)
+    (st : St) (hI : Inv w st) (iface : ClassId) (r : Ref) (o : List Mod)
+    (hn : lookupRef r (getBank iface st.banks).provider = none) :
+    (found w iface r (todoPaths (getBank iface st.banks) r o) = true → ∃ c, (get w st iface r o).2 = .ok c) ∧
+    (found w iface r (todoPaths (getBank iface st.banks) r o) = false → (get w st iface r o).2 = .error .missing) :=
+  get_unbound hw hpo hpk hI iface r o hn
+
+/-- A reference that resolves single-shot resolves — to the same class — after every history: whatever imports (failing
+ones included) and lookups (misses, hits, repeated ones, other references, other interfaces) happen after any
+pre-history, the later answer is the answer the process would have given at once.  (The search state is never
+consumed: `C20_lookup_keeps_state`.) -/
+theorem C20_history_hit_stable (w : World) (hw : worldClean w = true) (hpo : pathsOk w = true) (hpk : pkgsExist w = true)
+    (pre ops : List HOp) (iface : ClassId) (r : Ref) (o o' : List Mod) (c : ClassId)
+    (ho' : validOrder (getBank iface (runHist w (runHist w St.empty pre) ops).banks).paths o' = true)
+    (h : (get w (runHist w St.empty pre) iface r o).2 = .ok c) :
+    (get w (runHist w (runHist w St.empty pre) ops) iface r o').2 = .ok c :=
+  get_hit_mono hw hpo hpk (C20_history_invariant w hw hpo pre)
+    (inv_runHist hw hpo ops _ (C20_history_invariant w hw hpo pre)) (runHist_le w ops _) iface r o o' ho' c h
+
+/-- History independence at full strength for discoverable provider packages (the layout of `forml.provider.*`:
+every provider in a sub-module named after its alias or listed in `__all__` of a package on the interface's search
+path): for every history of lookups and imports the answer for a reference — class or missing-provider error, alias
+or qualified name, known or unknown — equals the single-shot answer. -/
+theorem C20_history_independent (w : World) (hw : worldClean w = true) (hpo : pathsOk w = true) (hpk : pkgsExist w = true)
+    (pre ops : List HOp) (iface : ClassId) (hd : discoverable w (runHist w St.empty pre) iface = true) (r : Ref)
+    (o o' : List Mod) (ho : validOrder (getBank iface (runHist w St.empty pre).banks).paths o = true)
+    (ho' : validOrder (getBank iface (runHist w (runHist w St.empty pre) ops).banks).paths o' = true) :
+    (get w (runHist w (runHist w St.empty pre) ops) iface r o').2 = (get w (runHist w St.empty pre) iface r o).2 :=
+  get_history_free hw hpo hpk (C20_history_invariant w hw hpo pre) iface hd ops r o o' ho ho'
+
+/-- Without discoverability the only thing a history can change is to turn a miss into the hit (a module imported
+explicitly or by another lookup registers its providers): after any two histories the answers to one reference are
+never two different classes, and never an error other than the missing-provider error. -/
+theorem C20_history_answers (w : World) (hw : worldClean w = true) (hpo : pathsOk w = true) (hpk : pkgsExist w = true)
+    (ops : List HOp) (iface : ClassId) (r : Ref) (o : List Mod) :
+    (get w (runHist w St.empty ops) iface r o).2 = .error .missing ∨
+      ∃ c, (get w (runHist w St.empty ops) iface r o).2 = .ok c ∧
+        ∀ ops' iface' o' c', (get w (runHist w St.empty ops') iface' r o').2 = .ok c' → c' = c := by
+  have hI := C20_history_invariant w hw hpo ops
+  have huniq : ∀ c, (get w (runHist w St.empty ops) iface r o).2 = .ok c →
+      ∀ ops' iface' o' c', (get w (runHist w St.empty ops') iface' r o').2 = .ok c' → c' = c :=
+    fun c hc ops' iface' o' c' hc' =>
+      (get_unique hw hI.sound (C20_history_invariant w hw hpo ops').sound iface iface' r o o' c c' hc hc').symm
+  cases hb : lookupRef r (getBank iface (runHist w St.empty ops).banks).provider with
+  | some y => exact Or.inr ⟨y, get_of_bound w _ iface r o y hb, huniq y (get_of_bound w _ iface r o y hb)⟩
+  | none =>
+    have hu := get_unbound hw hpo hpk hI iface r o hb
+    cases hf : found w iface r (todoPaths (getBank iface (runHist w St.empty ops).banks) r o) with
+    | false => exact Or.inl (hu.2 hf)
+    | true =>
+      obtain ⟨y, hy⟩ := hu.1 hf
+      exact Or.inr ⟨y, hy, huniq y hy⟩
+
+/-- the lazily searched package of the history examples: `ifc.py` (module 0) with `Base(path=[pk1])`; `pk1/__init__.py`
+with `__all__ = [m7]`; `pk1/foo.py` (5) = `Impl(Base, alias=foo)`; `pk1/m7.py` = `Impl(Base, alias=baz)` (alias 8 ≠
+module name, found through `__all__`); `pk1/m9.py` = `Other(Base, alias=qux)` (alias 6, neither named after it nor
+listed: not discoverable) -/
+def lazyWorld : World :=
+  [ (⟨0, none⟩, ⟨[], [⟨⟨⟨0, none⟩, 0⟩, none, true, false, [], [⟨1, none⟩]⟩]⟩),
+    (⟨1, none⟩, ⟨[7], []⟩),
+    (⟨1, some 5⟩, ⟨[], [⟨⟨⟨1, some 5⟩, 1⟩, some 5, false, false, [⟨⟨0, none⟩, 0⟩], []⟩]⟩),
+    (⟨1, some 7⟩, ⟨[], [⟨⟨⟨1, some 7⟩, 1⟩, some 8, false, false, [⟨⟨0, none⟩, 0⟩], []⟩]⟩),
+    (⟨1, some 9⟩, ⟨[], [⟨⟨⟨1, some 9⟩, 2⟩, some 6, false, false, [⟨⟨0, none⟩, 0⟩], []⟩]⟩) ]
+
+/-- non-vacuity of the history theorems: the world is defect-free; after `import ifc` everything but `pk1.m9` is
+discoverable; a history of two misses, a hit of another reference and a repeated miss leaves `Base['foo']`,
+`Base['baz']` and the unknown `Base['nosuch']` (4) as they were; the undiscoverable alias `qux` is the case
+`C20_history_answers` is about: a miss at once, the class after `Base['pk1.m9:Other']` was looked up -/
+example :
+    let ifc : ClassId := ⟨⟨0, none⟩, 0⟩
+    let pre : List HOp := [.imp ⟨0, none⟩]
+    let hist : List HOp := [.get ifc (.alias 4) [⟨1, none⟩], .get ifc (.qual ⟨⟨1, some 5⟩, 9⟩) [⟨1, none⟩],
+      .get ifc (.alias 8) [⟨1, none⟩], .get ifc (.alias 4) [⟨1, none⟩], .imp ⟨3, some 3⟩]
+    let st := runHist lazyWorld St.empty pre
+    worldClean lazyWorld = true ∧ pathsOk lazyWorld = true ∧ pkgsExist lazyWorld = true ∧
+      discoverable lazyWorld st ifc = false ∧
+      discoverable (lazyWorld.filter (fun e => e.1 != ⟨1, some 9⟩)) (runHist (lazyWorld.filter (fun e => e.1 != ⟨1, some 9⟩)) St.empty pre) ifc = true ∧
+      (get lazyWorld st ifc (.alias 5) [⟨1, none⟩]).2 = .ok ⟨⟨1, some 5⟩, 1⟩ ∧
+      (get lazyWorld (runHist lazyWorld st hist) ifc (.alias 5) [⟨1, none⟩]).2 = .ok ⟨⟨1, some 5⟩, 1⟩ ∧
+      (get lazyWorld (runHist lazyWorld st hist) ifc (.alias 8) [⟨1, none⟩]).2 = .ok ⟨⟨1, some 7⟩, 1⟩ ∧
+      (get lazyWorld (runHist lazyWorld st hist) ifc (.alias 4) [⟨1, none⟩]).2 = .error .missing ∧
+      (get lazyWorld st ifc (.alias 6) [⟨1, none⟩]).2 = .error .missing ∧
+      (get lazyWorld (runHist lazyWorld st [.get ifc (.qual ⟨⟨1, some 9⟩, 2⟩) [⟨1, none⟩]]) ifc (.alias 6) [⟨1, none⟩]).2
+        = .ok ⟨⟨1, some 9⟩, 2⟩ := by decide
+
+/-- `Bank.get` with the "optimisation" of dropping every search path it has imported from the bank's set (what the
+lazy search state must NOT do): the base paths are also the prefixes the alias candidates are derived from -/
+def getDiscarding (w : World) (st : St) (iface : ClassId) (r : Ref) (order : List Mod) : St × Res :=
+  let res := get w st iface r order
+  match lookupRef r (getBank iface st.banks).provider with
+  | some _ => res
+  | none =>
+    let b := getBank iface res.1.banks
+    ({ res.1 with banks := setBank iface ⟨b.provider, []⟩ res.1.banks }, res.2)
+
+def C20_history_discarding_full : Prop :=
+  ∀ (w : World) (st : St) (iface : ClassId) (r r' : Ref) (o : List Mod) (c : ClassId),
+    (get w st iface r o).2 = .ok c → (get w (getDiscarding w st iface r' o).1 iface r o).2 = .ok c
+
+/-- Why the search paths have to stay: with a consumed search state a valid alias raises the missing-provider error
+after an earlier miss. -/
+theorem C20_history_discarding_counterexample : ¬ C20_history_discarding_full := by
+  intro h
+  have := h lazyWorld (runHist lazyWorld St.empty [.imp ⟨0, none⟩]) ⟨⟨0, none⟩, 0⟩ (.alias 5) (.alias 4) [⟨1, none⟩]
+    ⟨⟨1, some 5⟩, 1⟩ (by decide)
+  revert this
+  decide
+
+end ForML.Bank
+
+namespace ForML.Bank
+
+/-! ## asking twice: search paths registered while a lookup is running -/
+
+/-- Idempotence of a lookup at full strength: in a defect-free world, asking again gives the same answer. -/
+def C20_lookup_repeat_full : Prop :=
+  ∀ (w : World) (st : St) (iface : ClassId) (r : Ref) (o o' : List Mod),
+    worldClean w = true → pathsOk w = true → pkgsExist w = true → Inv w st →
+    validOrder (getBank iface st.banks).paths o = true →
+    validOrder (getBank iface (get w st iface r o).1.banks).paths o' = true →
+    (get w (get w st iface r o).1 iface r o').2 = (get w st iface r o).2
+
+/-- the world of finding C20-F2: `ifc.py` (module 0) with `Base(path=[pk1])`; `pk1/__init__.py` with `__all__ = [m5]`;
+`pk1/m5.py` = abstract `Mid2(Base, path=[pk2])`; `pk2/bar.py` (bar = 7) = `Impl(Base, alias=bar)` -/
+def nestedWorld : World :=
+  [ (⟨0, none⟩, ⟨[], [⟨⟨⟨0, none⟩, 0⟩, none, true, false, [], [⟨1, none⟩]⟩]⟩),
+    (⟨1, none⟩, ⟨[5], []⟩), (⟨2, none⟩, ⟨[], []⟩),
+    (⟨1, some 5⟩, ⟨[], [⟨⟨⟨1, some 5⟩, 1⟩, none, true, false, [⟨⟨0, none⟩, 0⟩], [⟨2, none⟩]⟩]⟩),
+    (⟨2, some 7⟩, ⟨[], [⟨⟨⟨2, some 7⟩, 2⟩, some 7, false, false, [⟨⟨0, none⟩, 0⟩], []⟩]⟩) ]
+
+/-- The code that exists does not satisfy it (finding C20-F2): `Bank.get` builds its search list once, so a search path
+that a class discovered by this very lookup declares (`path=`) is not searched by it — `Base['bar']` raises the
+missing-provider error the first time and returns `pk2.bar:Impl` the second time. -/
+theorem C20_lookup_repeat_counterexample : ¬ C20_lookup_repeat_full := by
+  intro h
+  have := h nestedWorld (runHist nestedWorld St.empty [.imp ⟨0, none⟩]) ⟨⟨0, none⟩, 0⟩ (.alias 7) [⟨1, none⟩]
+    [⟨1, none⟩, ⟨2, none⟩] (by decide) (by decide) (by decide)
+    (C20_history_invariant nestedWorld (by decide) (by decide) [.imp ⟨0, none⟩]) (by decide) (by decide)
+  revert this
+  decide
+
+/-- It holds whenever no class that is still to be discovered declares search paths (`pathsSettled`, decidable — in
+forml itself only the interfaces declare `path=`): then a repeated lookup answers as the first one did, hit or miss. -/
+theorem C20_lookup_repeat_partial (w : World) (hw : worldClean w = true) (hpo : pathsOk w = true) (hpk : pkgsExist w = true)
+    (pre : List HOp) (hset : pathsSettled w (runHist w St.empty pre) = true) (iface : ClassId) (r : Ref) (o o' : List Mod)
+    (ho : validOrder (getBank iface (runHist w St.empty pre).banks).paths o = true)
+    (ho' : validOrder (getBank iface (get w (runHist w St.empty pre) iface r o).1.banks).paths o' = true) :
+    (get w (get w (runHist w St.empty pre) iface r o).1 iface r o').2 = (get w (runHist w St.empty pre) iface r o).2 :=
+  get_repeat hw hpo hpk (C20_history_invariant w hw hpo pre) hset iface r o o' ho ho'
+
+/-- non-vacuity of `C20_lookup_repeat_partial`: the lazily searched package of the history examples is settled once the
+interface module is imported; the nested world is not -/
+example :
+    pathsSettled lazyWorld (runHist lazyWorld St.empty [.imp ⟨0, none⟩]) = true ∧
+      pathsSettled nestedWorld (runHist nestedWorld St.empty [.imp ⟨0, none⟩]) = false ∧
+      pathsSettled nestedWorld (runHist nestedWorld St.empty [.imp ⟨0, none⟩, .imp ⟨1, some 5⟩]) = true := by decide
+
+end ForML.Bank
+
+namespace ForML.Conf
+
+/-! ## section resolution: single, multi-instance (feeds) and per-mode (sinks) -/
+
+/-- `Section.resolve`: an explicit reference is looked up as given, whatever the `[INDEX] default` says; without one the
+default decides; without either it is the missing error. -/
+theorem C20_section_reference_choice (cfg : Cfg) (index sel : Nat) (r : Cfg) :
+    chooseRef cfg index sel (some r) = .ok r ∧
+      (defaultRef cfg index sel = .ok none → chooseRef cfg index sel none = .error .missing) := by
+  refine ⟨rfl, ?_⟩
+  intro h
+  simp [chooseRef, h]
+
+/-- The feeds a multi-instance section resolves to are exactly the resolved references (nothing dropped, nothing
+invented), in `Feed.__lt__` order: by priority, equal priorities by provider reference. -/
+theorem C20_section_multi_sorted (cfg : Cfg) (index group sel kp kq kr prio0 : Nat) (rs : List Nat) (out : List Entry)
+    (h : resolveMulti cfg index group sel kp kq kr prio0 (some (.list rs)) = .ok out) :
+    ∃ xs, entries cfg group kp kq kr prio0 rs = .ok xs ∧ out.Perm xs ∧ out.Pairwise (fun a b => b.lt a = false) := by
+  simp only [resolveMulti, chooseRef] at h
+  cases he : entries cfg group kp kq kr prio0 rs with
+  | error e => simp [he, Except.map] at h
+  | ok xs =>
+    simp only [he, Except.map, Except.ok.injEq] at h
+    subst h
+    refine ⟨xs, rfl, sortE_perm xs, ?_⟩
+    have := sortE_sorted xs
+    simp only [SortedE, Entry.le, Bool.not_eq_true'] at this
+    exact this
+
+/-- Deterministic whatever the order in which the references are listed (in the `[FEED] default` list or by the
+caller): the same sections with pairwise distinct (priority, provider) keys resolve to the same sequence. -/
+theorem C20_section_multi_order_free (cfg : Cfg) (group kp kq kr prio0 : Nat) (rs rs' : List Nat) (hp : rs.Perm rs')
+    (xs : List Entry) (h : entries cfg group kp kq kr prio0 rs = .ok xs) (hk : KeysDistinct xs) :
+    ∃ xs', entries cfg group kp kq kr prio0 rs' = .ok xs' ∧ sortE xs' = sortE xs := by
+  obtain ⟨xs', hxs', hperm⟩ := entries_perm cfg group kp kq kr prio0 hp xs h
+  exact ⟨xs', hxs', (sortE_perm_eq hperm hk).symm⟩
+
+/-- A reference to a section that does not exist (or is ill-formed) anywhere in the list makes the resolution fail; it
+never yields the remaining sections only. -/
+theorem C20_section_multi_missing (cfg : Cfg) (index group sel kp kq kr prio0 : Nat) (rs : List Nat) (r : Nat) (hr : r ∈ rs)
+    (e : SecErr) (h : feedEntry cfg group r kp kq kr prio0 = .error e) :
+    ∃ e', resolveMulti cfg index group sel kp kq kr prio0 (some (.list rs)) = .error e' := by
+  obtain ⟨e', he'⟩ := entries_error cfg group kp kq kr prio0 rs r hr e h
+  exact ⟨e', by simp [resolveMulti, chooseRef, he', Except.map]⟩
+
+/-- `Sink.Mode.resolve`: `apply` and `eval` each fall back to `default`; an explicit reference serves both modes. -/
+theorem C20_section_mode_fallback (cfg : Cfg) (index group kd ka ke kp kq : Nat) (t : Tbl) (d : Cfg)
+    (hi : child cfg index = some (.table t)) (hd : lookup kd t = some d) (ha : lookup ka t = none)
+    (he : lookup ke t = none) :
+    resolveMode cfg index group kd ka ke kp kq none = resolveMode cfg index group kd ka ke kp kq (some d) := by
+  simp only [resolveMode, hi, hd, ha, he, Option.orElse]
+  cases resolveSingle cfg index group kd kp kq (some d) <;> rfl
+
+/-- non-vacuity: `[FEED] default = [r2, r0, r1]`, priorities 5 / default 0 / 5, providers `b` / (own name) / `a` (numbers
+in string order: a=10 < b=11 < r0=20 < r1=21 < r2=22; priorities 0 ↦ 30, 5 ↦ 31); a `priority` inside `params` stays a
+generic option; a missing reference fails; `[SINK] default = r0, eval = r1` -/
+example :
+    let cfg : Cfg := .table [
+      (1, .table [(2, .list [22, 20, 21]),
+        (20, .table [(4, .table [(5, .scalar 31)])]),
+        (21, .table [(3, .scalar 10), (5, .scalar 31)]),
+        (22, .table [(3, .scalar 11), (5, .scalar 31), (6, .scalar 7)])]),
+      (8, .table [(2, .scalar 20), (9, .scalar 21), (20, .table []), (21, .table [(3, .scalar 10)])])]
+    ((resolveMulti cfg 1 1 2 3 4 5 30 none).toOption.map (fun es => es.map (fun e => (e.ref, e.prio)))) =
+        some [(20, 30), (10, 31), (11, 31)] ∧
+      ((resolveMulti cfg 1 1 2 3 4 5 30 (some (.list [21, 22, 20]))).toOption.map (fun es => es.map (fun e => (e.ref, e.prio)))) =
+        some [(20, 30), (10, 31), (11, 31)] ∧
+      ((resolveMulti cfg 1 1 2 3 4 5 30 (some (.scalar 20))).toOption.map (fun es => es.map (fun e => e.params.map (·.1)))) =
+        some [[5]] ∧
+      (match resolveMulti cfg 1 1 2 3 4 5 30 (some (.list [20, 23])) with
+        | .error .missing => true
+        | _ => false) = true ∧
+      ((resolveMode cfg 8 8 2 7 9 3 4 none).toOption.map (fun p => (p.1.1.isSome, p.2.1.isSome))) = some (false, true) := by
+  decide
+
+end ForML.Conf
